@@ -1061,6 +1061,12 @@ class Interp:
                 return v.fields[0]
             if isinstance(v, Agg) and v.variant in ("Err", "None"):
                 raise Panic("unwrap of %s" % v.variant)
+        if name in ("common_traits::CastableInto::cast", "common_traits::UpcastableInto::upcast", "common_traits::DowncastableInto::downcast") and isinstance(args[0], AI):
+            # contract of the dependency: the `as` conversion to the named integer type
+            dst = fargs[-1] if fargs else None
+            if dst in TY and dst != "bool":
+                return self.cast(args[0], dst)
+            raise Unsupported("%s to %r" % (name, dst))
         if name in ("common_traits::UnsignedInt::to_signed", "common_traits::SignedInt::to_unsigned") and isinstance(args[0], AI):
             # contract of the dependency: reinterpretation of the same bits in the same-width type of the other signedness
             x = args[0]
